@@ -376,7 +376,13 @@ static bool step_inner(State &s)
       bool ap = a.isptr && a.obj >= 0, bp = b.isptr && b.obj >= 0;
       if (ap || bp)
       {
-        if (!(ap && bp && a.obj == b.obj)) { ForkReq fr; fr.alts.push_back(as_bool(c)); fr.alts.push_back(!as_bool(c)); throw fr; }
+        if (!(ap && bp && a.obj == b.obj))
+        {
+          z3::expr cc = as_bool(c);
+          bool mt = may_be_true(s, cc), mf = may_be_true(s, !cc);
+          if (mt && mf) { ForkReq fr; fr.alts.push_back(cc); fr.alts.push_back(!cc); throw fr; }
+          set_reg(s, &I, mt ? a : b); return true;
+        }
         set_reg(s, &I, with_off(a, mk_sym(64, z3::ite(as_bool(c), ex(a), ex(b))))); return true;
       }
       Val r = mk_sym(a.bits, z3::ite(as_bool(c), ex(a), ex(b)));
